@@ -423,3 +423,18 @@ Proof.
 Qed.
 
 End FullProofs.
+
+(* The premises of the relation theorem are satisfiable: K = V = A = R (a module over itself),
+   invertible = non-zero; with norm_tol > 0 the breakdown test guarantees invertibility. *)
+From Coq Require Import Reals Lra.
+Example module_laws_satisfiable_R :
+  (forall u v w, (u + (v + w) = (u + v) + w)%R) /\
+  (forall u v, (u + v = v + u)%R) /\ (forall v, (0 + v = v)%R) /\ (forall v, (0 * v = 0)%R) /\
+  (forall u v, ((u - v) + v = u)%R) /\
+  (forall w c, c <> 0%R -> (c * (w / c) = w)%R) /\
+  (forall tol, (0 < tol)%R -> forall c, a_ltb R_arith c tol = false -> c <> 0%R).
+Proof.
+  repeat split; intros; try lra.
+  - field; assumption.
+  - apply Rltb_false in H0. lra.
+Qed.
